@@ -13,6 +13,10 @@
 //   - Asking side: node A sends FINDNODES to scripted responders which answer with
 //     crafted NODES replies; the node list A's find-nodes call returns is judged
 //     element by element against the statement's acceptance rules.
+//   - Hearsay group (hearsay.go): R learns records through its own lookup from
+//     scripted peers that list validly signed records of nodes that do not exist;
+//     replies are judged against the monitor's own record of who R ever heard from,
+//     not against the table's live flag.
 package main
 
 import (
@@ -99,6 +103,15 @@ func relaySelfTest(r *lib.Run) bool {
 	for _, d := range rClasses {
 		pal = append(pal, d.addr.Addr())
 	}
+	for _, v := range hsVariants {
+		pal = append(pal, v.rAddr.Addr(), v.bAddr(0).Addr(), v.yAddr(0).Addr())
+		for _, d := range v.askers {
+			pal = append(pal, d.addr.Addr())
+		}
+		for _, k := range v.xKinds {
+			pal = append(pal, hsDeadAddr(k, rng, pub))
+		}
+	}
 	toIP := func(a netip.Addr) net.IP { return net.IP(a.AsSlice()) }
 	bad := 0
 	for _, peer := range pal {
@@ -130,11 +143,15 @@ func run(r *lib.Run) {
 	r.SetRule("responder case = (R address class, table filling class, asker address, FINDNODES distance list) answered by the real handler over the in-memory hub (or the talk-handler entry point for IPv6 / mapped askers); " +
 		"asker case = (responder address class, requested distances, crafted NODES reply: mix of valid / wrong-distance / bad-signature / null-scheme / repeated / low-port / no-ip / unrelayable / garbage items) processed by the real find-nodes call. " +
 		"distinct = (R class, fill class, asker class, distance class, reply-size class) on the responder side and (responder class, distance class, item kind, outcome) on the asking side; " +
-		"only exchanges whose reply was decoded and compared with the oracle are counted")
+		"only exchanges whose reply was decoded and compared with the oracle are counted. " +
+		"hearsay case = (address plan, lookup target, asker address, FINDNODES distance list, phase before / during / after R's own lookup) in a world where R's real lookup is answered by scripted table peers listing signed records of nodes that do not exist (plus peers that do); " +
+		"distinct = (address plan, asker class, distance class, phase), counted only when R held such a record in a covered bucket, relayable to the asker, and withheld it")
 	r.Assume("go-ethereum's enode.New(enode.ValidSchemes, …) decides 'validly signed'; rlp and enr decoding of go-ethereum are trusted")
 	r.Assume("a discv5 ordinary message packet carrying TALKRESP adds at most 103 bytes (16 IV + 23 static header + 32 source id + 1 type + 3 list + 9 request id + 3 string + 16 tag); on the hub path the real datagram length is measured instead")
 	r.Assume("table snapshots taken right before and right after a request bracket the table state the handler saw (only revalidation and the inbound add of the asker change the table meanwhile)")
 	r.Assume("'buckets that cover the requested distances': 17 buckets, bucket k>0 covers log-distance 240+k, bucket 0 covers 1..240 (cross-checked against the table's own placement of ids at every distance)")
+
+	r.Assume("hearsay group: the hub's tap sees every datagram; a node from whose endpoint no datagram was ever addressed to R cannot have answered R, so it cannot have passed a liveness check (the monitor inserting a real, answering peer as checked counts as a check)")
 
 	if !relaySelfTest(r) {
 		r.FloorMiss("reference relay rule and netutil.CheckRelayIP disagree on the generator's address palette")
@@ -147,6 +164,8 @@ func run(r *lib.Run) {
 	askWorlds := r.Pick(16, 240)
 	askPerResp := r.Pick(20, 30)
 	askDirect := r.Pick(100, 200)
+	hsWorlds := r.Pick(16, 240)
+	hsRounds := r.Pick(6, 8)
 
 	// geometry self-test against a real table
 	{
@@ -168,6 +187,7 @@ func run(r *lib.Run) {
 		kind string
 		idx  int
 	}
+	var mu sync.Mutex
 	var jobs []job
 	for i := 0; i < respWorlds || i < askWorlds; i++ {
 		if i < respWorlds {
@@ -177,10 +197,32 @@ func run(r *lib.Run) {
 			jobs = append(jobs, job{"ask", i})
 		}
 	}
+	// hearsay worlds mostly wait for R's lookup to time out on dead endpoints: own pool, run alongside
+	var doneHs int
+	var hsWg sync.WaitGroup
+	hsSem := make(chan struct{}, 8)
+	hsWg.Add(1)
+	go func() {
+		defer hsWg.Done()
+		for i := 0; i < hsWorlds; i++ {
+			hsWg.Add(1)
+			hsSem <- struct{}{}
+			go func(i int) {
+				defer hsWg.Done()
+				defer func() { <-hsSem }()
+				n, err := runHearsayWorld(r, i, hsRounds)
+				if err != nil {
+					r.FloorMiss("hearsay world %d: %v", i, err)
+				}
+				mu.Lock()
+				doneHs += n
+				mu.Unlock()
+			}(i)
+		}
+	}()
 	wantResp := respWorlds * (len(netAskers)*respPerAsker + respDirect)
 	wantAsk := askWorlds * (len(netResponders)*askPerResp + askDirect)
 	var doneResp, doneAsk int
-	var mu sync.Mutex
 	sem := make(chan struct{}, 6)
 	var wg sync.WaitGroup
 	for _, j := range jobs {
@@ -209,8 +251,12 @@ func run(r *lib.Run) {
 		}(j)
 	}
 	wg.Wait()
+	hsWg.Wait()
 	if doneResp != wantResp || doneAsk != wantAsk {
 		r.FloorMiss("executed %d/%d responder requests and %d/%d asker replies", doneResp, wantResp, doneAsk, wantAsk)
+	}
+	if want := hsWorlds * hsRounds * len(hsVariants[0].askers); doneHs != want {
+		r.FloorMiss("executed %d/%d hearsay requests", doneHs, want)
 	}
 	sigMu.Lock()
 	for name, set := range classSets {
@@ -227,6 +273,14 @@ func run(r *lib.Run) {
 	}
 	if r.Counter("ask_records_used_ok") < 100 {
 		r.Warn("few crafted records were accepted by the asker (%d)", r.Counter("ask_records_used_ok"))
+	}
+	if r.Counter("hearsay_dead_records_entered_table") == 0 {
+		r.Warn("hearsay group vacuous: none of the %d dead records listed to R entered its table", r.Counter("hearsay_dead_records_listed_to_R"))
+	} else if n := r.Counter("hearsay_worlds_with_dead_records_in_table"); n < int64(hsWorlds)*3/4 {
+		r.Warn("hearsay group: dead records entered R's table in only %d of %d worlds", n, hsWorlds)
+	}
+	if r.Counter("hearsay_requests_with_withheld_dead_records") == 0 {
+		r.Warn("hearsay group: no request found a dead record in a covered bucket of R's table")
 	}
 	if n := r.Counter("resp_talk_errors"); n > int64(wantResp/20) {
 		r.Warn("%d talk requests failed", n)
